@@ -344,7 +344,7 @@ def replay_generators(ctx, drv):
     rng = random.Random(ctx.seed * 23 + 5)
     jobs = []
     for k in range(400 if quick else 8000):
-        which = rng.choice(["combine", "haystack", "blockers1", "blockers2"])
+        which = rng.choice(["combine", "haystack", "blockers1", "blockers2", "binbin", "binmono"])
         if which == "combine":
             a = rng.choice([2, 3, 4, 8, 16, 24, 25, 26, 30])
             b = a + rng.choice([0, 1, 3, 10])
@@ -356,6 +356,18 @@ def replay_generators(ctx, drv):
             params = [a, b, rng.choice([1, 1, 2, 3, 7]), rng.randint(0, 1), rng.randint(0, 1)]
             call = lambda p=params: PR.gen_commute_haystack(min_terms=p[0], max_terms=p[1], commute_blockers=p[2],
                                                            easy=bool(p[3]), powers=bool(p[4]))
+        elif which in ("binbin", "binmono"):
+            top = 4 if which == "binbin" else 3
+            a = rng.choice([1, 1, 2, top])
+            b = rng.choice([x for x in (1, 2, 3, 4) if a <= x <= top])
+            pp, lp = rng.choice([0, 25, 33, 50, 100]), rng.choice([0, 50, 100])
+            # only probabilities whose float form times 100 is the integer percentage again
+            if (pp / 100) * 100 != pp or (lp / 100) * 100 != lp or ((pp / 100) * 100) * 2 != 2 * pp:
+                pp, lp = 50, 100
+            params = [a, b, rng.randint(0, 1), pp, lp]
+            fn = PR.gen_binomial_times_binomial if which == "binbin" else PR.gen_binomial_times_monomial
+            call = lambda p=params, fn=fn: fn(min_vars=p[0], max_vars=p[1], simple_variables=bool(p[2]),
+                                             powers_probability=p[3] / 100, like_variables_probability=p[4] / 100)
         elif which == "blockers1":
             params = [rng.choice([1, 2, 3, 5, 10, 22, 23]), rng.choice([0, 50, 100])]
             call = lambda p=params: PR.gen_move_around_blockers_one(p[0], p[1] / 100)
